@@ -146,6 +146,13 @@ def campaign(c, rng, t):
           sentinel = os.path.join(t.base, "sentinel")
           os.makedirs(sentinel)
           open(os.path.join(sentinel, "keep.txt"), "w").write("sentinel")
+          # files nobody has touched for days (what a freshly generated tree never has): access and modification time three and
+          # forty days back on a dozen files, requested explicitly below
+          import time as _time
+          aged = [k for k in sorted(t.files) if " " not in k and "#" not in k and "?" not in k and not os.path.islink(t.abs(k))][:12]
+          for j, k in enumerate(aged):
+              ago = _time.time() - 86400 * (3 if j % 2 else 40)
+              os.utime(t.abs(k), (ago, ago))
           before = fsmon.manifest(t.base)
           cwd_before = fsmon.manifest(build.VERIF) if False else None
           inputs = c04.build_inputs(c, t, rng)
@@ -184,6 +191,10 @@ def campaign(c, rng, t):
                   nb = 1200 if c.quick else 8000
                   bpick = pick[:nb]
                   history = []
+                  for k in aged:
+                      for hdr in ("", "Range: bytes=0-3\r\n"):
+                          srv.request(("GET %s HTTP/1.1\r\nHost: x\r\n%s\r\n" % (k, hdr)).encode("utf-8"), timeout=10)
+                          c.ev()
                   for i, (m, shape, raw) in enumerate(ups):
                       srv.request(raw, timeout=10)
                       c.ev()
